@@ -649,6 +649,29 @@ def _closed_truth(t):
 class Idioms3(ast.NodeTransformer):
     MAX = 12
 
+    def visit_BoolOp(self, node):
+        self.generic_visit(node)
+        # `k == "lit" and ... D[k] ... k in D ...` -> the literal in the
+        # operands that follow the equality (they are only evaluated when
+        # it holds)
+        if isinstance(node.op, ast.And):
+            known = {}
+            vals = []
+            for v in node.values:
+                if known:
+                    v = _SubstNames(known).visit(clone(v))
+                vals.append(v)
+                if isinstance(v, ast.Compare) and len(v.ops) == 1 and \
+                        isinstance(v.ops[0], ast.Eq) and isinstance(
+                        v.left, ast.Name) and isinstance(
+                        v.comparators[0], ast.Constant) and isinstance(
+                        v.comparators[0].value, str):
+                    known[v.left.id] = v.comparators[0]
+            if known:
+                node.values = vals
+                ast.fix_missing_locations(node)
+        return node
+
     def visit_Call(self, node):
         self.generic_visit(node)
         fn = norm(node.func)
@@ -3337,6 +3360,10 @@ def inline_loop_helpers(tree):
                                 targets=[ast.Name(id=v, ctx=ast.Store())],
                                 value=tail2.value or ast.Constant(value=None))
                         lp2.orelse = [] if endless else [tail2]
+                        if isinstance(tail2, ast.Assign) and isinstance(
+                                tail2.value, ast.Name) and \
+                                tail2.value.id == v:
+                            lp2.orelse = []        # `v = v`
                         inst = inst[:-1]
                     else:
                         i += 1
@@ -3436,6 +3463,76 @@ def comprehension_calls_to_loops(tree):
     return done
 
 
+def predicate_guards(tree):
+    """A private predicate written as guards - `if C: return False`,
+    `t = <query>`, ..., `return E` - becomes one boolean expression
+    (`not C and E[t]`), so that it can stand where it is called (inside
+    `and`/`or`, a conditional expression, a comprehension)."""
+    done = False
+    for holder in [tree] + [c for c in tree.body
+                            if isinstance(c, ast.ClassDef)]:
+        for st in holder.body:
+            if not (isinstance(st, ast.FunctionDef) and st.name.startswith(
+                    "_") and not st.name.startswith("__")
+                    and not st.decorator_list):
+                continue
+            body = [b for b in st.body if not (isinstance(
+                b, ast.Expr) and isinstance(b.value, ast.Constant))]
+            if len(body) < 2 or not isinstance(body[-1], ast.Return) or \
+                    body[-1].value is None:
+                continue
+            ok = True
+            for b in body[:-1]:
+                if isinstance(b, ast.If) and not b.orelse and len(
+                        b.body) == 1 and isinstance(
+                        b.body[0], ast.Return) and isinstance(
+                        b.body[0].value, ast.Constant) and isinstance(
+                        b.body[0].value.value, bool):
+                    continue
+                if isinstance(b, ast.Assign) and len(b.targets) == 1 and \
+                        isinstance(b.targets[0], ast.Name) and not any(
+                            isinstance(x, (ast.Lambda, ast.NamedExpr,
+                                           ast.Await, ast.Yield))
+                            for x in ast.walk(b.value)) and all(
+                            (norm(c.func).split(".")[-1] in (
+                                "get", "max", "min", "len", "isinstance",
+                                "keys", "values", "abs", "index")
+                             or norm(c.func).startswith("np."))
+                            for c in ast.walk(b.value)
+                            if isinstance(c, ast.Call)):
+                    continue
+                ok = False
+                break
+            if not ok or not any(isinstance(b, ast.If) for b in body[:-1]):
+                continue
+            params = {a.arg for a in ast.walk(st.args)
+                      if isinstance(a, ast.arg)}
+            expr = body[-1].value
+            for b in reversed(body[:-1]):
+                if isinstance(b, ast.Assign):
+                    t = b.targets[0].id
+                    if t in params:
+                        ok = False
+                        break
+                    expr = _SubstNames({t: b.value}).visit(clone(expr))
+                else:
+                    val = b.body[0].value.value
+                    if val:
+                        expr = ast.BoolOp(op=ast.Or(), values=[b.test, expr])
+                    else:
+                        expr = ast.BoolOp(op=ast.And(), values=[
+                            ast.UnaryOp(op=ast.Not(), operand=b.test), expr])
+            if not ok:
+                continue
+            doc = [b for b in st.body[:1] if isinstance(b, ast.Expr)
+                   and isinstance(b.value, ast.Constant)]
+            st.body = doc + [ast.copy_location(ast.Return(value=expr),
+                                               body[-1])]
+            ast.fix_missing_locations(st)
+            done = True
+    return done
+
+
 def predicate_loops(tree):
     """A private function `for t in IT: if C: return True` + `return False`
     is `return any(C for t in IT)` (and the all() counterpart): one
@@ -3450,11 +3547,27 @@ def predicate_loops(tree):
             body = [b for b in st.body if not (isinstance(
                 b, ast.Expr) and isinstance(b.value, ast.Constant))]
             if len(body) != 2 or not isinstance(body[0], ast.For) or \
-                    body[0].orelse or len(body[0].body) != 1 or \
+                    body[0].orelse or len(body[0].body) < 1 or \
                     not isinstance(body[1], ast.Return):
                 continue
             lp, tail = body
-            inner = lp.body[0]
+            inner = lp.body[-1]
+            temps = {}
+            tmp_ok = True
+            for b in lp.body[:-1]:
+                if isinstance(b, ast.Assign) and len(b.targets) == 1 and \
+                        isinstance(b.targets[0], ast.Name) and not any(
+                            isinstance(x, (ast.Lambda, ast.NamedExpr))
+                            for x in ast.walk(b.value)):
+                    temps[b.targets[0].id] = _SubstNames(temps).visit(
+                        clone(b.value))
+                else:
+                    tmp_ok = False
+            if not tmp_ok:
+                continue
+            if temps and isinstance(inner, ast.If):
+                inner = clone(inner)
+                inner.test = _SubstNames(temps).visit(inner.test)
             if not (isinstance(inner, ast.If) and not inner.orelse and len(
                     inner.body) == 1 and isinstance(inner.body[0], ast.Return)
                     and isinstance(inner.body[0].value, ast.Constant)
